@@ -8,15 +8,19 @@ import (
 )
 
 type sess struct {
-	c      *hlib.Ctx
-	b      *Built
-	prop   string
-	nodes  int // nodes in the open shard
-	scheds int
-	steps  int
+	c          *hlib.Ctx
+	b          *Built
+	prop       string
+	nodes      int // nodes in the open shard
+	scheds     int
+	steps      int
+	ids        int
+	exhaustive bool
 }
 
-const shardNodes = 30000
+func (s *sess) nextID() int { s.ids++; return s.ids }
+
+const shardNodes = 20000
 
 func openSess(c *hlib.Ctx, prop string) *sess {
 	repo := os.Getenv("VERIF_REPO")
@@ -30,7 +34,7 @@ func openSess(c *hlib.Ctx, prop string) *sess {
 		c.Finish()
 		os.Exit(3)
 	}
-	s := &sess{c: c, b: b, prop: prop}
+	s := &sess{c: c, b: b, prop: prop, exhaustive: true}
 	s.open()
 	return s
 }
@@ -70,24 +74,249 @@ func mkMsgs(P, W int) [][]uint64 {
 	return msgs
 }
 
-func RunC10(c *hlib.Ctx) {
-	s := openSess(c, "C10")
-	defer s.b.Cleanup()
-	for _, cfg := range [][3]int{{1, 2, 1}, {2, 1, 2}, {2, 1, 1}} {
-		j := &Job{Level: "diode", Size: cfg[2], Msgs: mkMsgs(cfg[0], cfg[1]), Budget: cfg[0]*cfg[1] + 2, Mode: "dfs", Post: "drain"}
-		root := newNode()
-		n, _, err := s.b.RunJob(j, func(r *Res) {
-			root.insert(r)
-			c.Count(fmt.Sprint(r.St), true)
-		})
-		if err != nil {
-			fmt.Fprintln(os.Stderr, err)
-			os.Exit(3)
+// explore runs one job, applies the monitors of the property to every execution, and ships
+// (a sample of) the executions to the Coq shards.
+type exploreOpt struct {
+	coqEvery int // ship every k-th execution to Coq (1 = all, 0 = none)
+	label    string
+}
+
+func (s *sess) explore(j *Job, o exploreOpt) (n int) {
+	root := newNode()
+	m := &monCtx{c: s.c, prop: s.prop}
+	i := 0
+	shipped := 0
+	nn, trunc, err := s.b.RunJob(j, func(r *Res) {
+		f := analyse(j, r)
+		m.c10(j, r, f) // safety monitors apply to every run of every property
+		switch s.prop {
+		case "C11":
+			m.c11(j, r, f)
+		case "C12":
+			m.c11(j, r, f)
+			m.c12(j, r, f)
 		}
-		c.Note("cfg %v: %d schedules, %d tree nodes", cfg, n, root.size())
-		s.ship(j, root, nil)
+		if len(r.Unk) > 0 {
+			m.violate(j, r, "unknown-operation", "instrumentation", fmt.Sprintf("the instrumented code performed operations the model does not know: %v", r.Unk), nil, nil)
+		}
+		nontrivial := f.ctxSwitch >= 3 && f.consSteps > 0
+		s.c.Count(fmt.Sprintf("%d/%v", j.ID, schedOf(r)), nontrivial)
+		if o.coqEvery > 0 && i%o.coqEvery == 0 {
+			root.insert(r)
+			shipped++
+		}
+		i++
+		s.steps += len(r.St)
+		if f.lapped {
+			s.c.Hist("lapping", "lapped")
+		} else {
+			s.c.Hist("lapping", "no-lap")
+		}
+		s.c.Hist("status", j.Level+":"+r.Status)
+		if len(s.c.Res.Samples) < 4 && nontrivial {
+			s.c.Sample(map[string]interface{}{"level": j.Level, "size": j.Size, "msgs": j.Msgs, "waiter": j.Waiter, "schedule": schedOf(r), "final": r.Cp[len(r.Cp)-1]})
+		}
+	})
+	if err != nil {
+		fmt.Fprintln(os.Stderr, "diodeh: runner failed: "+err.Error())
+		s.c.Finish()
+		os.Exit(3)
+	}
+	s.scheds += nn
+	cfg := fmt.Sprintf("%s P=%d W=%d size=%d", j.Level, len(j.Msgs), len(j.Msgs[0]), j.Size)
+	if j.Level == "writer" {
+		cfg += fmt.Sprintf(" waiter=%v gated=%v", j.Waiter, j.Gated)
+	}
+	s.c.Hist("config", cfg)
+	if j.Mode == "dfs" {
+		s.c.Note("%s %s: %d schedules enumerated (truncated=%v), %d shipped to Coq as %d tree nodes", o.label, cfg, nn, trunc, shipped, root.size())
+		if trunc {
+			s.exhaustive = false
+		}
+	}
+	if shipped > 0 {
+		s.ship(j, root, map[string]interface{}{"label": o.label, "schedules": shipped})
+	}
+	return nn
+}
+
+func randCfg(r *hlib.Rng, maxP, maxW, maxSize int) (P, W, size int) {
+	P = 1 + r.Intn(maxP)
+	W = 1 + r.Intn(maxW)
+	size = 1 + r.Intn(maxSize)
+	if r.Chance(60) && P*W <= size { // force lapping most of the time
+		size = 1 + r.Intn(imax(1, P*W-1))
+		if size > maxSize {
+			size = maxSize
+		}
+	}
+	return
+}
+
+func imax(a, b int) int {
+	if a > b {
+		return a
+	}
+	return b
+}
+
+// ---- witnesses of the known findings (role ids: 0 consumer, 3+p producer p)
+var (
+	k2Msgs  = [][]uint64{{100, 101}, {102}}
+	k2Sched = []int{3, 3, 3, 3, 3, 3, 4, 4, 0, 0, 4, 4, 4, 4}
+	k3Msgs  = [][]uint64{{100, 101}, {200}}
+	k3Sched = []int{4, 3, 3, 3, 3, 3, 3, 4, 4}
+	k4Msgs  = [][]uint64{{100}}
+	k4Sched = []int{0, 0, 0, 3, 3, 3, 3, 0}
+)
+
+func (s *sess) ringDFS(cfgs [][3]int, extra int, label string) {
+	for _, cfg := range cfgs {
+		j := &Job{ID: s.nextID(), Level: "diode", Size: cfg[2], Msgs: mkMsgs(cfg[0], cfg[1]), Budget: cfg[0]*cfg[1] + extra, Mode: "dfs", Post: "drain"}
+		s.explore(j, exploreOpt{coqEvery: 1, label: label})
 	}
 }
 
-func RunC11(c *hlib.Ctx) {}
-func RunC12(c *hlib.Ctx) {}
+func (s *sess) ringRandom(nCfg, per int, maxP, maxW, maxSize int, coqEvery int) {
+	for i := 0; i < nCfg; i++ {
+		r := s.c.R.Fork()
+		P, W, size := randCfg(r, maxP, maxW, maxSize)
+		j := &Job{ID: s.nextID(), Level: "diode", Size: size, Msgs: mkMsgs(P, W), Budget: P*W + 3, Mode: "rand", Seed: r.Next(), Count: per, Post: "drain"}
+		s.explore(j, exploreOpt{coqEvery: coqEvery, label: "random"})
+	}
+}
+
+func (s *sess) writerRandom(nCfg, per int, maxP, maxW, maxSize int, lapping bool, coqEvery int) {
+	for i := 0; i < nCfg; i++ {
+		r := s.c.R.Fork()
+		P, W, size := randCfg(r, maxP, maxW, maxSize)
+		if !lapping {
+			size = P*W + r.Intn(2)
+		}
+		msgs := mkMsgs(P, W)
+		j := &Job{ID: s.nextID(), Level: "writer", Size: size, Msgs: msgs, Bytes: mkBytes(msgs), Waiter: r.Bool(), Gated: r.Chance(70), Budget: P*W + 3,
+			Mode: "rand", Seed: r.Next(), Count: per, Post: "finish"}
+		s.explore(j, exploreOpt{coqEvery: coqEvery, label: "random-writer"})
+	}
+}
+
+func (s *sess) finish(rule string) {
+	s.c.Res.Rule = rule
+	s.c.Res.Exhaustive = s.exhaustive
+	s.c.Res.ExtraCoverage["schedules_executed"] = s.scheds
+	s.c.Res.ExtraCoverage["atomic_steps_executed"] = s.steps
+	s.c.Res.ExtraCoverage["instrumenter_rewrites"] = s.b.Counts
+	s.c.Res.ExtraCoverage["instrumented_sources"] = "diode/*.go, diode/internal/diodes/*.go of $VERIF_REPO (current working tree), rewritten at check time into a temporary module"
+}
+
+const ruleCommon = "a case is one configuration (level ring|writer, ring size, messages per producer, waiter|poller, Close gated on the last Write) with the prefix tree of the schedules executed on the instrumented REAL diode code; every edge carries the observed (thread, operation, value), every node the observed enabled set, leaves and check points the observables (delivered, alerts, returned Writes, indices, collision log lines, Close/consumer status); exhaustive = depth-first enumeration of every choice of enabled thread with a budget on consumer TryNext attempts (writes + 2..3), each schedule re-executed from a fresh diode; random = seeded priority schedules (random priorities with change points, consumer starved in a third of them so that producers lap it) and uniform schedules; non-trivial = at least 3 context switches and at least one consumer step; distinct by schedule"
+
+// ------------------------------------------------------------------ C10
+func RunC10(c *hlib.Ctx) {
+	s := openSess(c, "C10")
+	defer s.b.Cleanup()
+	// exhaustive small configurations (P, W, size) at ring level
+	s.ringDFS([][3]int{{1, 2, 1}, {2, 1, 2}, {2, 1, 1}}, 2, "exhaustive")
+	// producers alone: every Write returns although the consumer never takes a step
+	for _, cfg := range [][3]int{{2, 2, 1}, {2, 2, 2}, {3, 1, 2}} {
+		j := &Job{ID: s.nextID(), Level: "diode", Size: cfg[2], Msgs: mkMsgs(cfg[0], cfg[1]), Budget: 0, Mode: "dfs", NoCons: true, Post: ""}
+		m := &monCtx{c: c, prop: "C10"}
+		s.b.RunJob(j, func(r *Res) {
+			o := r.Cp[len(r.Cp)-1]
+			if !o.PDone {
+				m.violate(j, r, "producer-needs-consumer", "non-blocking", "producers did not finish their Writes without consumer steps", o, nil)
+			}
+		})
+		s.explore(j, exploreOpt{coqEvery: 4, label: "no-consumer"})
+	}
+	// writer level, consumer blocked inside the wrapped writer forever / never scheduled
+	for _, wt := range []bool{true, false} {
+		msgs := mkMsgs(2, 2)
+		j := &Job{ID: s.nextID(), Level: "writer", Size: 2, Msgs: msgs, Bytes: mkBytes(msgs), Waiter: wt, Gated: true, Budget: 0, Mode: "rand", Seed: c.R.Next(), Count: 40, NoCons: true, Post: ""}
+		m := &monCtx{c: c, prop: "C10"}
+		s.b.RunJob(j, func(r *Res) {
+			o := r.Cp[len(r.Cp)-1]
+			if !o.PDone {
+				m.violate(j, r, "producer-needs-consumer", "non-blocking", "Writer.Write did not return without consumer steps", o, nil)
+			}
+		})
+		s.explore(j, exploreOpt{coqEvery: 1, label: "writer-no-consumer"})
+	}
+	if c.Thorough() {
+		s.ringDFS([][3]int{{2, 2, 1}, {3, 1, 2}}, 1, "exhaustive-thorough")
+		s.ringRandom(400, 500, 4, 6, 4, 25)
+		s.writerRandom(200, 200, 3, 4, 3, true, 20)
+	} else {
+		s.ringRandom(50, 50, 4, 6, 4, 2)
+		s.writerRandom(24, 25, 3, 3, 3, true, 2)
+	}
+	s.finish(ruleCommon + "; C10 monitors: delivered subset of written with identical bytes, no duplicate, strictly increasing ring position, per-producer program order, deliveries only from the single poll goroutine and never nested, alerts positive and delivered+reported <= claimed, every unfinished producer enabled at every step and only add/load/cas/broadcast operations on the producer path, producers complete with the consumer never scheduled")
+}
+
+// ------------------------------------------------------------------ C11
+func RunC11(c *hlib.Ctx) {
+	s := openSess(c, "C11")
+	defer s.b.Cleanup()
+	// known-finding witnesses first, on the real instrumented code
+	s.explore(&Job{ID: s.nextID(), Level: "diode", Size: 2, Msgs: k2Msgs, Budget: 10, Mode: "list", Scheds: [][]int{k2Sched}, Post: "drain"}, exploreOpt{coqEvery: 1, label: "K2-witness"})
+	s.explore(&Job{ID: s.nextID(), Level: "diode", Size: 2, Msgs: k3Msgs, Budget: 10, Mode: "list", Scheds: [][]int{k3Sched}, Post: "drain"}, exploreOpt{coqEvery: 1, label: "K3-witness"})
+	s.ringDFS([][3]int{{1, 2, 1}, {2, 1, 2}, {2, 1, 1}, {1, 3, 2}}, 2, "exhaustive")
+	if c.Thorough() {
+		s.ringDFS([][3]int{{2, 2, 1}, {3, 1, 2}}, 1, "exhaustive-thorough")
+		s.ringRandom(400, 500, 4, 6, 4, 25)
+		s.writerRandom(200, 200, 3, 4, 3, true, 20)
+	} else {
+		s.ringRandom(50, 50, 4, 6, 4, 2)
+		s.writerRandom(24, 25, 3, 3, 3, true, 2)
+	}
+	fatalPath(c)
+	s.finish(ruleCommon + "; Close after the last Write = the consumer runs TryNext until it fails (ring level) or Writer.Close with the closer gated on the last Write (writer level); C11 monitors at Close: delivered + reported >= returned, equality when no 'Diode set collision' was logged, nothing dropped when fewer than size positions were outstanding at every fetch-add, wrapped writer closed; failures classified structurally (abandoned position after a failed CAS at the final read index = diode-hole-at-close; lost message overwritten by a first-lap CAS of smaller seq = diode-firstlap-overwrite; anything else under its own key); plus Logger.Fatal through a diode.Writer in a re-executed process")
+}
+
+// ------------------------------------------------------------------ C12
+func RunC12(c *hlib.Ctx) {
+	s := openSess(c, "C12")
+	defer s.b.Cleanup()
+	msgs := k4Msgs
+	s.explore(&Job{ID: s.nextID(), Level: "writer", Size: 2, Msgs: msgs, Bytes: mkBytes(msgs), Waiter: true, Gated: true, Budget: 10, Mode: "list", Scheds: [][]int{k4Sched}, Post: "finish"}, exploreOpt{coqEvery: 1, label: "K4-witness"})
+	type wc struct {
+		P, W, size    int
+		waiter, gated bool
+		max, every    int
+	}
+	cfgs := []wc{
+		{1, 1, 1, true, true, 0, 1}, {1, 1, 1, false, true, 0, 1}, {1, 1, 1, false, false, 0, 1},
+		{1, 2, 2, false, true, 0, 2}, {1, 1, 1, true, false, 0, 32},
+		{1, 2, 2, false, false, 0, 16}, {1, 2, 2, true, true, 60000, 30}, {2, 1, 2, true, true, 60000, 30}, {2, 1, 2, false, true, 60000, 30},
+	}
+	if c.Thorough() {
+		cfgs = append(cfgs, wc{1, 2, 2, true, true, 3000000, 400}, wc{2, 1, 2, true, true, 3000000, 400}, wc{2, 1, 2, false, true, 0, 100},
+			wc{1, 2, 2, true, false, 2000000, 400}, wc{2, 2, 4, false, true, 2000000, 400})
+	}
+	for _, x := range cfgs {
+		msgs := mkMsgs(x.P, x.W)
+		j := &Job{ID: s.nextID(), Level: "writer", Size: x.size, Msgs: msgs, Bytes: mkBytes(msgs), Waiter: x.waiter, Gated: x.gated, Budget: x.P*x.W + 1, Mode: "dfs", Post: "finish", MaxSched: x.max}
+		s.explore(j, exploreOpt{coqEvery: x.every, label: "exhaustive"})
+	}
+	if c.Thorough() {
+		s.writerRandom(300, 300, 3, 3, 3, false, 30)
+	} else {
+		s.writerRandom(30, 30, 3, 3, 3, false, 2)
+	}
+	realPrimitives(c)
+	s.finish(ruleCommon + "; writer level = the real diode.Writer (NewWriter, Write, poll, Close) over scheduler-controlled Mutex/Cond/context/Sleep, ring large enough that no lapping occurs; after the explored prefix the runner (a) lets the consumer, the cancel goroutine and the Writes already in progress run until nothing moves, with no new Write and no Close (check point 'quiet'), then (b) completes fairly with Close (check point 'final'); C12 monitors: at 'quiet' every returned Write is delivered or reported (structure 'producer Broadcast woke nobody between the failed TryNext and the Wait, consumer parked, message at the read index' = waiter-lost-wakeup), at 'final' all threads finished and Close returned (stuck-state detector), plus the C10/C11 safety and accounting monitors; and a run of the uninstrumented Writer on the real runtime primitives")
+}
+
+func mkBytes(msgs [][]uint64) map[string]string {
+	m := map[string]string{}
+	for _, l := range msgs {
+		for _, id := range l {
+			s := fmt.Sprintf("{\"msg\":%d,\"pad\":\"", id)
+			for i := 0; i < int(id%7); i++ {
+				s += "x"
+			}
+			m[fmt.Sprint(id)] = s + "\"}\n"
+		}
+	}
+	return m
+}
